@@ -115,6 +115,11 @@ def run(tier, seed):
     # the crate's other safe public type with unsafe inside: the aligned I/O buffer, through safe calls only
     for i in range(2 if tier == "quick" else 8):
         runs.append(("api_%d" % i, [fxa, "apisurface", "--seed", str(rng.randrange(1 << 30)), "--rounds", "300"]))
+    # a hot key: one key overwritten far faster than the write buffer flushes - the chain of superseded generations
+    # is released in one go when the newest one becomes durable (plain build too: sanitizer frames are larger)
+    for i in range(1 if tier == "quick" else 3):
+        runs.append(("hotkey_%d" % i, [fxa, "hotkey", "--dir", shm, "--burst", str([120000, 300000, 60000][i % 3]), "--rounds", "2"]))
+        runs.append(("hotkeyp_%d" % i, [fxv, "hotkey", "--dir", shm, "--burst", str([250000, 500000, 120000][i % 3]), "--rounds", "2"]))
     for i in range(6 if tier == "quick" else 40):
         d = os.path.join(shm, "cr%d" % i)
         os.makedirs(d, exist_ok=True)
